@@ -6,6 +6,7 @@ package main
 
 import (
 	"fmt"
+	"sort"
 	"go/constant"
 	"go/token"
 	"go/types"
@@ -527,11 +528,16 @@ func protectedHeap(name string) bool {
 
 // havocAll forgets every heap (external=true keeps protected heaps).
 func (ex *Exec) havocAll(st *State, external bool) {
-	for name, t := range st.heaps {
+	var names []string
+	for name := range st.heaps {
+		names = append(names, name)
+	}
+	sort.Strings(names)
+	for _, name := range names {
 		if external && protectedHeap(name) {
 			continue
 		}
-		st.havocHeap(name, t.Sort)
+		st.havocHeap(name, st.heaps[name].Sort)
 	}
 	if external {
 		st.epochExt++
@@ -788,7 +794,13 @@ func (ex *Exec) applyModSet(st *State, ms *ModSet) {
 		ex.havocAll(st, false)
 		return
 	}
-	for name, sort := range ms.heaps {
+	var names []string
+	for name := range ms.heaps {
+		names = append(names, name)
+	}
+	sort.Strings(names)
+	for _, name := range names {
+		sort := ms.heaps[name]
 		old := st.heap(name, sort)
 		nw := st.havocHeap(name, sort)
 		if !ms.written[name] && strings.HasPrefix(sort, "(Array Int ") {
